@@ -100,6 +100,7 @@ InterpreterEnv::InterpreterEnv(std::vector<valtype>& stack_in, const CScript& sc
     fRequireMinimal = (flags & SCRIPT_VERIFY_MINIMALDATA) != 0;
     // figure out if p2sh
     is_p2sh = (
+        sigversion == SigVersion::BASE && // a witness script or tapscript leaf of that shape is an ordinary script
         (flags & SCRIPT_VERIFY_P2SH) &&
         script.size() == 23 &&
         script[0] == OP_HASH160 &&
@@ -241,6 +242,7 @@ bool StepScript(InterpreterEnv& env)
 
         // figure out if p2sh
         env.is_p2sh = (
+            env.sigversion == SigVersion::BASE &&
             (env.flags & SCRIPT_VERIFY_P2SH) &&
             script.size() == 23 &&
             script[0] == OP_HASH160 &&
